@@ -182,7 +182,7 @@ bool Hist::opParamSet() {
     }
     if (!oc.threw && rng.chance(30) && !(type == 2 && nd >= 7)) {     // (a string array with 7 explicit dimensions has 8 in all: beyond the format)
         p.name("SETOK" + std::to_string(rng.range(0, 3)));
-        std::string pg = "PROBES"; if (prev.findGroup(pg) < 0 && prev.groups.size() >= 127) pg = "FORCE_PLATFORM";
+        std::string pg = "PROBES"; if (prev.findGroup(pg) < 0 && prev.groups.size() >= 127) pg = "FORCE_PLATFORM"; if (prev.findGroup(pg) < 0 && prev.groups.size() >= 127) pg = "POINT";   /* no 128th group slot (a loaded file need not have FORCE_PLATFORM) */
         log.pre("parameter"); Outcome ao; VF_TRY(ao, obj->parameter(pg, p)); log.ev("add_param_after_accepted_set", "name=" + p.name() + " " + a.str(), ao); bump("op:add_param_after_accepted_set");
         afterMutator("add_param_after_accepted_set", ao);
     }
